@@ -660,6 +660,8 @@ class Facts:
             self.raw = json.loads(text)
             _fix_names(self.raw)
         self.rewrites = rws
+        from . import mirprep
+        self.inlined_accessors = mirprep.inline_transparent(self.raw)      # newtype accessors / constructors become the `.0` / `T(x)` they stand for
         badts = getattr(baseline_paths, "adts", {}) if baseline_paths() else {}
         for a in self.raw.get("adts", []):
             rec = badts.get(a["path"])
